@@ -32,10 +32,12 @@ import (
 const modPrefix = "github.com/TheManticoreProject/Manticore/zz_verif/"
 
 var redirect = map[string]string{
-	"sync":      "vsync",
-	"net":       "vnet",
-	"time":      "vtime",
-	"math/rand": "vrand",
+	"sync":        "vsync",
+	"net":         "vnet",
+	"time":        "vtime",
+	"math/rand":   "vrand",
+	"sync/atomic": "vatomic",
+	"context":     "vcontext",
 }
 
 func fatalf(f string, a ...any) {
@@ -92,7 +94,7 @@ func main() {
 			nchan += in.nchan
 		}
 	}
-	for _, sp := range []string{"vrt", "vsync", "vnet", "vtime", "vrand"} {
+	for _, sp := range []string{"vrt", "vsync", "vnet", "vtime", "vrand", "vatomic", "vcontext"} {
 		ents, err := os.ReadDir(filepath.Join(*shim, sp))
 		if err != nil {
 			fatalf("%v", err)
@@ -159,7 +161,7 @@ func (in *inst) rewrite() ([]byte, error) {
 		p, _ := strconv.Unquote(im.Path.Value)
 		sh, ok := redirect[p]
 		if !ok {
-			if p == "sync/atomic" || p == "os/signal" {
+			if p == "os/signal" {
 				return nil, fmt.Errorf("import %q is not simulated by the E3 shims", p)
 			}
 			continue
